@@ -29,6 +29,7 @@ NoCorr == [c |-> "none", at |-> 0]
 Render(es, corr) ==
     LET txt(i) == IF corr.c = "third" /\ corr.at = i THEN EntryText(es[i]) \o <<58, 57>>       \* a:b:9 -- a third range end
                   ELSE IF corr.c = "foreign" /\ corr.at = i THEN <<36>> \o EntryText(es[i])    \* $entry
+                  ELSE IF corr.c = "wsafter" /\ corr.at = i THEN EntryText(es[i]) \o <<32>>     \* entry followed by a blank
                   ELSE EntryText(es[i])
         sepBefore(i) == IF i = 1 THEN (IF corr.c = "lead" THEN <<44>> ELSE <<>>)
                         ELSE IF corr.c = "nosep" /\ corr.at = i THEN <<>>                       \* missing separator
@@ -42,6 +43,7 @@ ErrWindow(es, corr) ==
       [] corr.c = "lead"    -> [err |-> TRUE, lo |-> 0, hi |-> 0]
       [] corr.c \in {"nosep", "dbl", "foreign", "dimmix"} -> [err |-> TRUE, lo |-> corr.at - 1, hi |-> corr.at - 1]
       [] corr.c = "third"   -> [err |-> TRUE, lo |-> corr.at - 1, hi |-> corr.at]      \* the a:b part may or may not be yielded first
+      [] corr.c = "wsafter" -> [err |-> TRUE, lo |-> corr.at - 1, hi |-> corr.at]      \* the entry before the blank may be yielded first
 
 (* a corruption is applicable to a list *)
 Applicable(es, corr, channel) ==
@@ -49,6 +51,7 @@ Applicable(es, corr, channel) ==
       [] corr.c = "lead"  -> TRUE
       [] corr.c = "dbl"   -> corr.at \in 2..Len(es)
       [] corr.c = "foreign" -> corr.at \in 1..Len(es)
+      [] corr.c = "wsafter" -> corr.at \in 1..Len(es)
       [] corr.c = "nosep" -> ~channel /\ corr.at \in 2..Len(es) /\ es[corr.at].a[1] \in {43, 45}   \* 1-2, 1+3: still two numbers
       [] corr.c = "third" -> corr.at \in 1..Len(es) /\ es[corr.at].k \in {"range", "nrange"}
       [] corr.c = "dimmix" -> channel /\ corr.at \in 1..Len(es) /\ es[corr.at].k = "range" /\ Len(es[corr.at].a) # Len(es[corr.at].b)
